@@ -66,7 +66,10 @@ pub fn check_inline(bytes: &[u8]) -> Result<bool, (String, String)> {
 }
 
 pub fn run(thorough: bool) -> Report {
-    let mut rep = Report::new("single operations: 12 operators x 0..2 operands over the direct-object alphabet (all combinations); sequences of 2 and 3 operations over a 9-operation set (all); all 65 536 byte pairs as name / literal / hex string operands; inline images: W,H in 1..3 x {G,RGB,CMYK and long names} x BPC {1,8} x abbreviated/long keys; nesting depth: a TJ operand that is an array / a dictionary / alternating arrays and dictionaries (every level with leaf siblings before and after the nested child) / a literal string of balanced parentheses, nested 1..L-1 deep (every depth; L = 32 for arrays and dictionaries, 100 for parentheses: the parser's nesting limits) must round-trip, nested L, L+1, L+2, 99, 100, 101, 150, 200 deep must round-trip or be rejected with an error; thread history: these nesting probes plus an ordinary text sequence, a bare operator and an inline image are checked in turn on a fresh thread, and again on a fresh thread that first decoded each history over a 27-item alphabet of earlier Content::decode inputs (well-formed content nested L-1 / L / L+1 / 200 deep in each shape, truncated content with 50 / 100 / 101 / 150 / 200 unclosed openers, stray closers, an inline image with missing data, an ordinary sequence, a valid inline image): every single item repeated {1, 3, 33, 100} times (thorough: {1, 2, 3, 31, 32, 33, 100, 250}), every ordered pair over a 12-item sub-alphabet (thorough: every ordered pair of all 27 items and every ordered triple over the 12-item sub-alphabet); each of the 431 distinct items is also decoded on a fresh thread of its own; what a thread decoded before, accepted or rejected, must not change any result", true);
+    let mut rep = Report::new("single operations: 12 operators x 0..2 operands over the direct-object alphabet (all combinations); sequences of 2 and 3 operations over a 9-operation set (all); all 65 536 byte pairs as name / literal / hex string operands; inline images: W,H in 1..3 x {G,RGB,CMYK and long names} x BPC {1,8} x abbreviated/long keys; nesting depth: a TJ operand that is an array / a dictionary / alternating arrays and dictionaries (every level with leaf siblings before and after the nested child) / a literal string of balanced parentheses, nested 1..L-1 deep (every depth; L = 32 for arrays and dictionaries, 100 for parentheses: the parser's nesting limits) must round-trip, nested L, L+1, L+2, 99, 100, 101, 150, 200 deep must round-trip or be rejected with an error; thread history: these nesting probes plus an ordinary text sequence, a bare operator and an inline image are checked in turn on a fresh thread, and again on a fresh thread that first decoded each history over a 27-item alphabet of earlier Content::decode inputs (well-formed content nested L-1 / L / L+1 / 200 deep in each shape, truncated content with 50 / 100 / 101 / 150 / 200 unclosed openers, stray closers, an inline image with missing data, an ordinary sequence, a valid inline image): every single item repeated {1, 3, 33, 100} times (thorough: {1, 2, 3, 31, 32, 33, 100, 250}), every ordered pair over a 12-item sub-alphabet (thorough: every ordered pair of all 27 items and every ordered triple over the 12-item sub-alphabet); each of the 431 distinct items is also decoded on a fresh thread of its own; what a thread decoded before, accepted or rejected, must not change any result; \
+sizes: between BT and ET, one operation carrying a name / literal string / hexadecimal string of n bytes filled with each of {letters, bytes 0x80.., delimiters and white space, digits}, placed as the only operand, as the first of two operands, as an array element, as a dictionary value and (names) as a dictionary key; an operator of n letters; an operation with n operands; an array of n elements; a dictionary of n entries; a run of n operations -- for every n in 0..=260 (thorough: 0..=1100) and n = 2^k - 1, 2^k, 2^k + 1 for k = 9..13 (thorough: k = 9..16) (the property bounds no length, so every one must decode to what was encoded); \
+inline image dictionaries: the four required entries (Width, Height, BitsPerComponent, ColorSpace) plus every subset of at most 2 (thorough: every subset) of the five optional entries the decoder supports (Decode, ImageMask, Intent, Interpolate and Length of ISO 32000-2 table 91; Filter / DecodeParms are refused by the decoder), written in EVERY order of the entries, x key spelling {all abbreviated, all full, alternating} x colour space {Gray, RGB, CMYK} (thorough: orders with 3 or more optional entries in one of these 9 combinations each, rotating with the order's number), with W, H in 1..3 and BPC in {1, 2, 4, 8} rotating with the order's number: the decoded operations must be q, BI, Q with exactly the written entries and data, and decode(encode(decoded)) must equal them; \
+inline image data: the same two checks for a 1x1 8-bit gray image with each of the 256 data bytes and a 2x1 one with each of the 65 536 pairs of data bytes (sample data are arbitrary bytes)", true);
     let alpha = direct_alphabet();
     // 1. single operations
     let mut cases: Vec<Vec<Operation>> = vec![];
@@ -107,6 +110,12 @@ pub fn run(thorough: bool) -> Report {
     } } } } } }
     // 5. nesting depth x thread history
     histories_section(&mut rep, thorough);
+    // 6. sizes of tokens and lists
+    sizes_section(&mut rep, thorough);
+    // 7. inline image dictionaries: optional entries x entry order
+    image_dict_section(&mut rep, thorough);
+    // 8. inline image data bytes
+    image_data_section(&mut rep);
     rep
 }
 
@@ -114,6 +123,8 @@ pub fn replay(v: &Value) -> Result<(), String> {
     match v["kind"].as_str() {
         Some("ops") => check_ops(&ops_from_json(v)).map_err(|e| format!("{}: {}", e.0, e.1)),
         Some("history") => replay_history(v),
+        Some("sized") => with_quiet_panics(|| check_sized(&SizedCase::from_json(v).ok_or("bad sized case")?).map_err(|e| format!("{}: {}", e.0, e.1))),
+        Some("image") => with_quiet_panics(|| check_image(&ImageSpec::from_json(v).ok_or("bad image case")?).map_err(|e| format!("{}: {}", e.0, e.1))),
         Some("inline") => check_inline(&unhex(v["bytes"].as_str().unwrap_or(""))).map(|_| ()).map_err(|e| format!("{}: {}", e.0, e.1)),
         _ => Err("unknown replay kind".into()),
     }
@@ -356,4 +367,343 @@ fn replay_history(v: &Value) -> Result<(), String> {
     }
     steps.push(Item::from_json(&v["probe"]).ok_or("bad probe")?);
     last_outcome(steps).map(|_| ()).map_err(|e| format!("{}: {}", e.0, e.1))
+}
+
+// ---------------------------------------------------------------------------------------------------------------
+// Sizes.
+//
+// The property bounds neither the number of bytes of a name or string ("arbitrary bytes in names and strings") nor the
+// number of operands, elements, entries or operations ("0..n operands ... nested arbitrarily"), and the writer accepts
+// every size. So size is a dimension of the family of its own: every size in a dense range and around the powers of two
+// up to 2^16 + 1, for every kind of token or list, every filling and every place an operand can stand in. The oracle is
+// the property itself: decode(encode(ops)) == ops.
+const TOKENS: &[&str] = &["name", "literal-string", "hex-string"];
+const LISTS: &[&str] = &["operator", "operand-list", "array", "dictionary", "operation-run"];
+const FILLS: &[&str] = &["letters", "high-bytes", "delimiters", "digits"];
+const PLACES: &[&str] = &["only-operand", "first-of-two-operands", "array-element", "dictionary-value", "dictionary-key"];
+
+#[derive(Clone, Copy, PartialEq, Eq, Debug)]
+struct SizedCase { what: &'static str, place: &'static str, fill: &'static str, len: usize }
+
+fn fill_bytes(fill: &str, len: usize) -> Vec<u8> {
+    const LETTERS: &[u8] = b"abcdefghijklmnopqrstuvwxyzABCDEFGHIJKLMNOPQRSTUVWXYZ";
+    const DELIMS: &[u8] = b"()<>[]{}/%# \t\r\n\x0c\x00\\";
+    (0..len).map(|i| match fill { "letters" => LETTERS[i % LETTERS.len()], "high-bytes" => 0x80 + (i % 128) as u8, "delimiters" => DELIMS[i % DELIMS.len()], _ => b'0' + (i % 10) as u8 }).collect()
+}
+
+impl SizedCase {
+    fn ops(&self) -> Vec<Operation> {
+        let n = self.len;
+        let span = || name(b"Span");
+        let mut v = vec![Operation::new("BT", vec![])];
+        if TOKENS.contains(&self.what) {
+            let b = fill_bytes(self.fill, n);
+            let x = match self.what { "name" => Object::Name(b.clone()), "literal-string" => lit(&b), _ => hexs(&b) };
+            v.push(match self.place {
+                "only-operand" => Operation::new("gs", vec![x]),
+                "first-of-two-operands" => Operation::new("Tf", vec![x, Object::Integer(12)]),
+                "array-element" => Operation::new("TJ", vec![Object::Array(vec![Object::Integer(1), x, Object::Integer(2)])]),
+                "dictionary-value" => Operation::new("BDC", vec![span(), Object::Dictionary(dict(vec![(b"MCID", Object::Integer(3)), (b"V", x), (b"Z", Object::Integer(1))]))]),
+                _ => Operation::new("BDC", vec![span(), Object::Dictionary(dict(vec![(b"MCID", Object::Integer(3)), (&b[..], Object::Integer(1)), (b"Z", Object::Integer(2))]))]),
+            });
+        } else {
+            match self.what {
+                "operator" => v.push(Operation::new(&String::from_utf8(fill_bytes("letters", n)).unwrap(), vec![Object::Integer(1)])),
+                "operand-list" => v.push(Operation::new("re", (0..n).map(|i| Object::Integer(i as i64)).collect())),
+                "array" => v.push(Operation::new("TJ", vec![Object::Array((0..n).map(|i| Object::Integer(i as i64)).collect())])),
+                "dictionary" => { let keys: Vec<Vec<u8>> = (0..n).map(|i| format!("K{}", i).into_bytes()).collect(); v.push(Operation::new("BDC", vec![span(), Object::Dictionary(dict(keys.iter().enumerate().map(|(i, k)| (&k[..], Object::Integer(i as i64))).collect()))])); }
+                _ => for i in 0..n { v.push(Operation::new("Td", vec![Object::Integer(i as i64), Object::Integer(0)])); },
+            }
+        }
+        v.push(Operation::new("ET", vec![]));
+        v
+    }
+    fn describe(&self) -> String {
+        if TOKENS.contains(&self.what) {
+            format!("between BT and ET, a {} of {} bytes ({}) as {}", self.what, self.len, self.fill, match self.place {
+                "only-operand" => "the only operand of gs", "first-of-two-operands" => "the first of the two operands of Tf", "array-element" => "the middle element of the array operand of TJ",
+                "dictionary-value" => "a value in the dictionary operand of BDC", _ => "a key in the dictionary operand of BDC" })
+        } else {
+            match self.what {
+                "operator" => format!("between BT and ET, an operator of {} letters with one operand", self.len), "operand-list" => format!("between BT and ET, re with {} integer operands", self.len),
+                "array" => format!("between BT and ET, TJ with an array of {} integers", self.len), "dictionary" => format!("between BT and ET, BDC with a dictionary of {} entries", self.len),
+                _ => format!("between BT and ET, a run of {} Td operations", self.len),
+            }
+        }
+    }
+    fn to_json(&self) -> Value { json!({"kind": "sized", "what": self.what, "place": self.place, "fill": self.fill, "len": self.len}) }
+    fn from_json(v: &Value) -> Option<SizedCase> {
+        let pick = |tab: &[&'static str], k: &str| -> Option<&'static str> { if v[k].as_str() == Some("-") { Some("-") } else { tab.iter().copied().find(|t| Some(*t) == v[k].as_str()) } };
+        let what = TOKENS.iter().chain(LISTS).copied().find(|t| Some(*t) == v["what"].as_str())?;
+        Some(SizedCase { what, place: pick(PLACES, "place")?, fill: pick(FILLS, "fill")?, len: v["len"].as_u64()? as usize })
+    }
+}
+
+fn clip(s: &str) -> String { let n = s.chars().count(); if n <= 72 { s.to_string() } else { format!("{} ...[{} chars]... {}", s.chars().take(36).collect::<String>(), n - 60, s.chars().skip(n - 24).collect::<String>()) } }
+fn short_obj(o: &Object) -> String {
+    match o {
+        Object::Name(b) => format!("name of {} bytes {}", b.len(), clip(&format!("{:?}", String::from_utf8_lossy(b)))),
+        Object::String(b, f) => format!("{} string of {} bytes {}", if matches!(f, StringFormat::Literal) { "literal" } else { "hexadecimal" }, b.len(), clip(&format!("{:?}", String::from_utf8_lossy(b)))),
+        Object::Array(a) => format!("array of {} elements {}", a.len(), clip(&format!("[{}]", a.iter().take(8).map(short_obj).collect::<Vec<_>>().join(", ")))),
+        Object::Dictionary(d) => format!("dictionary of {} entries {}", d.len(), clip(&format!("<<{}>>", d.iter().take(8).map(|(k, v)| format!("/{} {}", String::from_utf8_lossy(k), short_obj(v))).collect::<Vec<_>>().join(", ")))),
+        Object::Stream(s) => format!("stream of {} bytes with {}", s.content.len(), short_obj(&Object::Dictionary(s.dict.clone()))),
+        other => clip(&format!("{:?}", other)),
+    }
+}
+fn ops_summary(ops: &[Operation]) -> String {
+    let mut parts: Vec<String> = ops.iter().take(6).map(|o| format!("{}/{}", clip(&o.operator), o.operands.len())).collect();
+    if ops.len() > 6 { parts.push(format!("... {}/{}", clip(&ops[ops.len() - 1].operator), ops[ops.len() - 1].operands.len())); }
+    format!("{} operations [{}]", ops.len(), parts.join(" "))
+}
+/// where the decoded operations first differ from the encoded ones (operator/operand-count listing plus the first differing operand)
+fn first_difference(want: &[Operation], got: &[Operation]) -> String {
+    for (i, (w, g)) in want.iter().zip(got).enumerate() {
+        if w.operator != g.operator || w.operands.len() != g.operands.len() {
+            return format!("operation {} is {} with {} operands [{}] where {} with {} operands was encoded", i, clip(&g.operator), g.operands.len(), g.operands.iter().take(3).map(short_obj).collect::<Vec<_>>().join("; "), clip(&w.operator), w.operands.len());
+        }
+        for (j, (p, q)) in w.operands.iter().zip(&g.operands).enumerate() {
+            if !obj_eq(p, q) { return format!("operand {} of operation {} ({}) is {} where {} was encoded", j, i, clip(&w.operator), short_obj(q), short_obj(p)); }
+        }
+    }
+    format!("the first {} operations agree", want.len().min(got.len()))
+}
+
+fn check_sized(s: &SizedCase) -> Result<(), (String, String)> {
+    let ops = s.ops();
+    let c = Content { operations: ops.clone() };
+    let enc = match caught(|| c.encode()) { Ok(Ok(e)) => e, other => return Err(("encode".into(), format!("{}: {:?}", s.describe(), other.map(|r| r.map_err(|e| e.to_string()))))) };
+    match caught(|| Content::decode(&enc)) {
+        Err(p) => Err(("decode-no-panic".into(), format!("{}: decoding the {} encoded bytes: {}", s.describe(), enc.len(), p))),
+        Ok(Err(e)) => Err(("decode-equals-encoded".into(), format!("{}: the {} encoded bytes fail to decode: {}", s.describe(), enc.len(), e))),
+        Ok(Ok(d)) if ops_eq(&ops, &d.operations) => Ok(()),
+        Ok(Ok(d)) => Err(("decode-equals-encoded".into(), format!("{}: the {} encoded bytes ({}) decode to {} where {} were encoded: {}", s.describe(), enc.len(), clip(&format!("{:?}", String::from_utf8_lossy(&enc))), ops_summary(&d.operations), ops_summary(&ops), first_difference(&ops, &d.operations)))),
+    }
+}
+
+fn size_grid(thorough: bool) -> Vec<usize> {
+    let (dense, top) = if thorough { (1100, 16) } else { (260, 13) };
+    let mut v: Vec<usize> = (0..=dense).collect();
+    for k in 9..=top { for n in [(1usize << k) - 1, 1 << k, (1 << k) + 1] { if n > dense { v.push(n); } } }
+    v
+}
+
+fn sized_cases(thorough: bool) -> Vec<SizedCase> {
+    let mut v = vec![];
+    for &len in &size_grid(thorough) {
+        for &what in TOKENS { for &place in PLACES { for &fill in FILLS { if place != "dictionary-key" || what == "name" { v.push(SizedCase { what, place, fill, len }); } } } }
+        for &what in LISTS { if what != "operator" || len > 0 { v.push(SizedCase { what, place: "-", fill: "-", len }); } }
+    }
+    v
+}
+
+fn sizes_section(rep: &mut Report, thorough: bool) {
+    let cases = sized_cases(thorough);
+    rep.sample(format!("{:?}", cases[cases.len() / 2]));
+    let results: Vec<Option<(String, String)>> = with_quiet_panics(|| {
+        // the largest cases first and one case per task, so that the few long ones do not end up queued on one thread
+        let mut order: Vec<usize> = (0..cases.len()).collect();
+        order.sort_by_key(|i| std::cmp::Reverse(cases[*i].len));
+        let mut done: Vec<(usize, Option<(String, String)>)> = order.par_iter().with_max_len(1).map(|i| (*i, check_sized(&cases[*i]).err())).collect();
+        done.sort_by_key(|d| d.0);
+        done.into_iter().map(|d| d.1).collect()
+    });
+    // one report per kind and place: the smallest failing size (the cases are in order of size), with the number and range of the others
+    let mut groups: Vec<(&'static str, &'static str, String, Vec<usize>)> = vec![];
+    for (i, (s, r)) in cases.iter().zip(&results).enumerate() {
+        rep.case(s.len > 0);
+        if let Some((o, _)) = r {
+            match groups.iter_mut().find(|g| g.0 == s.what && g.1 == s.place && &g.2 == o) { Some(g) => g.3.push(i), None => groups.push((s.what, s.place, o.clone(), vec![i])) }
+        }
+    }
+    for (what, place, obligation, idx) in groups {
+        let all = cases.iter().filter(|c| c.what == what && c.place == place).count();
+        let first = &cases[idx[0]];
+        let lens: Vec<usize> = idx.iter().map(|i| cases[*i].len).collect();
+        let passing_above = cases.iter().enumerate().filter(|(i, c)| c.what == what && c.place == place && c.len > first.len && !idx.contains(i)).count();
+        let d = format!("[{} of the {} sizes and fillings of this kind and place fail: sizes {}..={}, {} larger ones pass] {}", idx.len(), all, lens.iter().min().unwrap(), lens.iter().max().unwrap(), passing_above, results[idx[0]].as_ref().unwrap().1);
+        rep.fail(&obligation, d.clone(), first.to_json(), d);
+    }
+}
+
+// ---------------------------------------------------------------------------------------------------------------
+// Inline image dictionaries.
+//
+// "Valid inline images" are those of ISO 32000-2, 8.9.7: BI, the entries of table 91 in any order (an inline image
+// dictionary is a dictionary: the order of its entries carries no meaning), ID, the data, EI. Section 4 above writes
+// the four required entries in one fixed order only. Here the optional entries the decoder supports are added
+// (every subset) and the entries are written in every order, under abbreviated and full keys. The expected result is
+// built from what was written, not from the library: q, BI with a stream holding exactly these entries (plus the
+// stream's own Length) and these data bytes, Q; and decode(encode(that)) must give the same operations again.
+const IMAGE_KEYS: &[(&str, &str)] = &[("W", "Width"), ("H", "Height"), ("BPC", "BitsPerComponent"), ("CS", "ColorSpace"),
+    ("D", "Decode"), ("IM", "ImageMask"), ("Intent", "Intent"), ("I", "Interpolate"), ("L", "Length")];
+const REQUIRED_KEYS: usize = 4;
+const COLOUR_SPACES: &[(&str, &str, usize)] = &[("G", "DeviceGray", 1), ("RGB", "DeviceRGB", 3), ("CMYK", "DeviceCMYK", 4)];
+
+#[derive(Clone, Debug)]
+struct ImageSpec { w: usize, h: usize, bpc: usize, cs: String, keys: Vec<String>, seed: u8, fixed: Option<Vec<u8>> }
+
+impl ImageSpec {
+    fn ncol(&self) -> Option<usize> { COLOUR_SPACES.iter().find(|c| c.0 == self.cs || c.1 == self.cs).map(|c| c.2) }
+    fn data(&self) -> Vec<u8> {
+        if let Some(d) = &self.fixed { return d.clone(); }
+        let stride = (self.w * self.ncol().unwrap_or(1) * self.bpc + 7) / 8;
+        (0..stride * self.h).map(|i| (i as u8).wrapping_mul(37).wrapping_add(self.seed)).collect()
+    }
+    /// the entries as written: key, value, and the value's spelling (spelled here, not by the library's writer)
+    fn entries(&self) -> Vec<(String, Object, String)> {
+        let n = self.ncol().unwrap_or(1);
+        self.keys.iter().map(|k| {
+            let full = IMAGE_KEYS.iter().find(|p| p.0 == k || p.1 == k).map(|p| p.1).unwrap_or("");
+            let (o, text) = match full {
+                "Width" => (Object::Integer(self.w as i64), self.w.to_string()), "Height" => (Object::Integer(self.h as i64), self.h.to_string()),
+                "BitsPerComponent" => (Object::Integer(self.bpc as i64), self.bpc.to_string()), "ColorSpace" => (name(self.cs.as_bytes()), format!("/{}", self.cs)),
+                "Decode" => { let inv = self.seed % 2 == 1; let a: Vec<i64> = (0..2 * n).map(|i| if (i % 2 == 1) != inv { 1 } else { 0 }).collect();
+                    (Object::Array(a.iter().map(|x| Object::Integer(*x)).collect()), format!("[{}]", a.iter().map(|x| x.to_string()).collect::<Vec<_>>().join(" "))) }
+                "ImageMask" => (Object::Boolean(false), "false".into()), "Intent" => (name(b"Perceptual"), "/Perceptual".into()),
+                "Interpolate" => (Object::Boolean(true), "true".into()), _ => { let l = self.data().len(); (Object::Integer(l as i64), l.to_string()) }
+            };
+            (k.clone(), o, text)
+        }).collect()
+    }
+    fn header_of(entries: &[(String, Object, String)]) -> String { format!("BI {}ID", entries.iter().map(|(k, _, t)| format!("/{} {} ", k, t)).collect::<String>()) }
+    fn header(&self) -> String { Self::header_of(&self.entries()) }
+    fn bytes_of(header: &str, data: &[u8]) -> Vec<u8> { [&b"q\n"[..], header.as_bytes(), &b" "[..], data, &b" EI\nQ"[..]].concat() }
+    fn bytes(&self) -> Vec<u8> { Self::bytes_of(&self.header(), &self.data()) }
+    fn to_json(&self) -> Value { json!({"kind": "image", "w": self.w, "h": self.h, "bpc": self.bpc, "cs": self.cs, "keys": self.keys, "seed": self.seed, "data": self.fixed.as_ref().map(|d| hex(d)), "bytes": hex(&self.bytes())}) }
+    fn from_json(v: &Value) -> Option<ImageSpec> {
+        let s = ImageSpec { w: v["w"].as_u64()? as usize, h: v["h"].as_u64()? as usize, bpc: v["bpc"].as_u64()? as usize, cs: v["cs"].as_str()?.to_string(),
+            keys: v["keys"].as_array()?.iter().filter_map(|k| k.as_str().map(String::from)).collect(), seed: v["seed"].as_u64()? as u8, fixed: v["data"].as_str().map(unhex) };
+        let stride = (s.w * s.ncol()? * s.bpc + 7) / 8;
+        if s.fixed.as_ref().map_or(false, |d| d.len() != stride * s.h) { return None; }
+        if s.keys.iter().all(|k| IMAGE_KEYS.iter().any(|p| p.0 == k || p.1 == k)) { Some(s) } else { None }
+    }
+}
+
+/// the single BI stream of `q BI Q`, or what is wrong with the operations
+fn the_image(ops: &[Operation]) -> Result<&lopdf::Stream, String> {
+    let shape = || ops.iter().map(|o| format!("{}/{}", clip(&o.operator), o.operands.len())).collect::<Vec<_>>().join(" ");
+    if ops.len() != 3 || ops[0].operator != "q" || ops[1].operator != "BI" || ops[2].operator != "Q" || !ops[0].operands.is_empty() || !ops[2].operands.is_empty() { return Err(format!("{} operations [{}] instead of q/0 BI/1 Q/0", ops.len(), shape())); }
+    match ops[1].operands.as_slice() { [Object::Stream(s)] => Ok(s), other => Err(format!("BI has the operands [{}] instead of one stream", other.iter().map(short_obj).collect::<Vec<_>>().join("; "))) }
+}
+fn entries_text(d: &lopdf::Dictionary) -> String { d.iter().map(|(k, v)| format!("/{} {}", String::from_utf8_lossy(k), match v { Object::Name(n) => format!("/{}", String::from_utf8_lossy(n)), Object::Integer(i) => i.to_string(), Object::Boolean(b) => b.to_string(), o => short_obj(o) })).collect::<Vec<_>>().join(" ") }
+
+fn check_image(s: &ImageSpec) -> Result<(), (String, String)> {
+    let (entries, data) = (s.entries(), s.data());
+    let header = ImageSpec::header_of(&entries);
+    let bytes = ImageSpec::bytes_of(&header, &data);
+    let shown = format!("q {} <{} data bytes> EI Q", header, data.len());
+    let d1 = match caught(|| Content::decode(&bytes)) { Ok(Ok(d)) => d, Ok(Err(e)) => return Err(("inline-decodes".into(), format!("{} fails to decode: {}", shown, e))), Err(p) => return Err(("decode-no-panic".into(), format!("{}: {}", shown, p))) };
+    // what was written is what is decoded
+    let img = the_image(&d1.operations).map_err(|e| ("inline-decodes".to_string(), format!("{} decodes to {}", shown, e)))?;
+    if img.content != data { return Err(("inline-decodes".into(), format!("{} decodes to an image with {} data bytes {} instead of the {} written {}", shown, img.content.len(), clip(&hex(&img.content)), data.len(), clip(&hex(&data))))); }
+    for (k, o, t) in &entries {
+        match img.dict.get(k.as_bytes()) { Ok(got) if obj_eq(o, got) => {}, got => return Err(("inline-decodes".into(), format!("{} decodes to an image whose entry /{} is {} instead of {} (decoded entries: {})", shown, k, got.map(short_obj).unwrap_or("absent".into()), t, entries_text(&img.dict)))) }
+    }
+    if let Some((k, _)) = img.dict.iter().find(|(k, _)| k.as_slice() != b"Length" && !entries.iter().any(|e| e.0.as_bytes() == k.as_slice())) { return Err(("inline-decodes".into(), format!("{} decodes to an image with the entry /{} that was not written (decoded entries: {})", shown, String::from_utf8_lossy(k), entries_text(&img.dict)))); }
+    // encode and decode again
+    let enc = match caught(|| d1.encode()) { Ok(Ok(e)) => e, other => return Err(("inline-reencode".into(), format!("{}: encoding the decoded operations: {:?}", shown, other.map(|r| r.map_err(|e| e.to_string()))))) };
+    let enc_head = { let cut = enc.windows(4).position(|w| w == b" ID ").map(|p| p + 3).unwrap_or(enc.len().min(120)); String::from_utf8_lossy(&enc[..cut]).replace('\n', " ") };
+    match caught(|| Content::decode(&enc)) {
+        Err(p) => Err(("decode-no-panic".into(), format!("{}: decoding the re-encoded bytes {:?}: {}", shown, enc_head, p))),
+        Ok(Err(e)) => Err(("inline-reencode".into(), format!("{} decodes (entries: {}), but the decoded operations are encoded as {:?} ... ({} bytes), which fail to decode: {}", shown, entries_text(&img.dict), enc_head, enc.len(), e))),
+        Ok(Ok(d2)) if ops_eq(&d1.operations, &d2.operations) => Ok(()),
+        Ok(Ok(d2)) => {
+            let what = match the_image(&d2.operations) {
+                Err(e) => e,
+                Ok(img2) => {
+                    let mut diffs: Vec<String> = vec![];
+                    for (k, v) in img.dict.iter() { match img2.dict.get(k) { Err(_) => diffs.push(format!("the entry /{} {} is lost", String::from_utf8_lossy(k), short_obj(v))), Ok(v2) if !obj_eq(v, v2) => diffs.push(format!("the entry /{} changes from {} to {}", String::from_utf8_lossy(k), short_obj(v), short_obj(v2))), _ => {} } }
+                    for (k, v) in img2.dict.iter() { if !img.dict.has(k) { diffs.push(format!("the entry /{} {} appears", String::from_utf8_lossy(k), short_obj(v))); } }
+                    if img.content != img2.content { diffs.push(format!("the data change from {} to {} bytes", img.content.len(), img2.content.len())); }
+                    diffs.join(", ")
+                }
+            };
+            Err(("inline-reencode".into(), format!("{} decodes (entries: {}), but decode -> encode -> decode changes the operations: encoded as {:?} ... ({} bytes), decoded again: {}", shown, entries_text(&img.dict), enc_head, enc.len(), what)))
+        }
+    }
+}
+
+fn permutations(items: &[u8]) -> Vec<Vec<u8>> {
+    fn rec(rest: &mut Vec<u8>, cur: &mut Vec<u8>, out: &mut Vec<Vec<u8>>) {
+        if rest.is_empty() { out.push(cur.clone()); return; }
+        for i in 0..rest.len() { let x = rest.remove(i); cur.push(x); rec(rest, cur, out); cur.pop(); rest.insert(i, x); }
+    }
+    let mut out = vec![];
+    rec(&mut items.to_vec(), &mut vec![], &mut out);
+    out
+}
+
+/// every order of the required entries plus each subset of the optional ones (smaller subsets first)
+fn image_orders(thorough: bool) -> Vec<Vec<u8>> {
+    let optional = IMAGE_KEYS.len() - REQUIRED_KEYS;
+    let mut masks: Vec<u32> = (0..1u32 << optional).filter(|m| thorough || m.count_ones() <= 2).collect();
+    masks.sort_by_key(|m| m.count_ones());
+    let mut v = vec![];
+    for m in masks {
+        let mut items: Vec<u8> = (0..REQUIRED_KEYS as u8).collect();
+        for b in 0..optional { if m >> b & 1 == 1 { items.push((REQUIRED_KEYS + b) as u8); } }
+        v.extend(permutations(&items));
+    }
+    v
+}
+const IMAGE_VARIANTS: usize = 9; // 3 key spellings x 3 colour spaces
+/// orders with at most 2 optional entries come first and are written in all 9 variants, the others in one variant each (rotating with the order's number)
+fn image_case_count(orders: &[Vec<u8>]) -> usize { let small = orders.iter().filter(|o| o.len() <= REQUIRED_KEYS + 2).count(); small * IMAGE_VARIANTS + (orders.len() - small) }
+fn image_spec(orders: &[Vec<u8>], small: usize, case: usize) -> ImageSpec {
+    let (n, variant) = if case < small * IMAGE_VARIANTS { (case / IMAGE_VARIANTS, case % IMAGE_VARIANTS) } else { let n = small + case - small * IMAGE_VARIANTS; (n, n % IMAGE_VARIANTS) };
+    let (style, cs) = (variant / 3, variant % 3);
+    let abbreviated = |pos: usize| match style { 0 => true, 1 => false, _ => pos % 2 == 0 };
+    let keys: Vec<String> = orders[n].iter().enumerate().map(|(pos, k)| { let p = IMAGE_KEYS[*k as usize]; if abbreviated(pos) { p.0 } else { p.1 }.to_string() }).collect();
+    let cs_pos = orders[n].iter().position(|k| IMAGE_KEYS[*k as usize].1 == "ColorSpace").unwrap_or(0);
+    let c = COLOUR_SPACES[cs];
+    ImageSpec { w: 1 + n % 3, h: 1 + n / 3 % 3, bpc: [8, 1, 2, 4][n / 9 % 4], cs: if abbreviated(cs_pos) { c.0 } else { c.1 }.to_string(), keys, seed: 0x21 + (n % 7) as u8 * 31, fixed: None }
+}
+
+fn image_dict_section(rep: &mut Report, thorough: bool) {
+    let orders = image_orders(thorough);
+    let total = image_case_count(&orders);
+    let small = orders.iter().filter(|o| o.len() <= REQUIRED_KEYS + 2).count();
+    rep.sample(format!("{:?}", String::from_utf8_lossy(&image_spec(&orders, small, total / 2).bytes())));
+    const OBLIGATIONS: &[&str] = &["inline-decodes", "inline-reencode", "decode-no-panic"];
+    // only the number and the obligation of every failing case are kept; the details of the first ones are computed again below
+    let failing: Vec<(usize, usize)> = with_quiet_panics(|| (0..total).into_par_iter().filter_map(|case| {
+        check_image(&image_spec(&orders, small, case)).err().map(|(o, _)| (case, OBLIGATIONS.iter().position(|x| *x == o).unwrap_or(0)))
+    }).collect());
+    rep.evaluations += total as u64; rep.nontrivial += total as u64;
+    for (code, obligation) in OBLIGATIONS.iter().enumerate() {
+        let of: Vec<usize> = failing.iter().filter(|f| f.1 == code).map(|f| f.0).collect();
+        for case in of.iter().take(3) {
+            let s = image_spec(&orders, small, *case);
+            let detail = with_quiet_panics(|| check_image(&s)).err().map(|e| e.1).unwrap_or_else(|| "(passed when run again)".into());
+            let d = format!("[{} of the {} inline images fail this way; this one has {} entries] {}", of.len(), total, s.keys.len(), detail);
+            rep.fail(obligation, d.clone(), s.to_json(), d);
+        }
+    }
+}
+
+/// the sample data of an inline image are arbitrary bytes: every single byte (1x1, 8-bit gray) and every pair of bytes (2x1)
+fn image_data_spec(case: usize) -> ImageSpec {
+    let fixed = if case < 256 { vec![case as u8] } else { vec![((case - 256) >> 8) as u8, (case - 256) as u8] };
+    ImageSpec { w: fixed.len(), h: 1, bpc: 8, cs: "G".into(), keys: ["W", "H", "BPC", "CS"].iter().map(|k| k.to_string()).collect(), seed: 0, fixed: Some(fixed) }
+}
+fn image_data_section(rep: &mut Report) {
+    let total = 256 + 65536;
+    let failing: Vec<(usize, String)> = with_quiet_panics(|| (0..total).into_par_iter().filter_map(|case| check_image(&image_data_spec(case)).err().map(|(o, _)| (case, o))).collect());
+    rep.evaluations += total as u64; rep.nontrivial += total as u64;
+    let mut obligations: Vec<&String> = failing.iter().map(|f| &f.1).collect();
+    obligations.sort(); obligations.dedup();
+    for obligation in obligations {
+        let of: Vec<usize> = failing.iter().filter(|f| &f.1 == obligation).map(|f| f.0).collect();
+        let mut firsts: Vec<u8> = of.iter().map(|c| image_data_spec(*c).data()[0]).collect();
+        firsts.sort(); firsts.dedup();
+        let mut lasts: Vec<u8> = of.iter().map(|c| *image_data_spec(*c).data().last().unwrap()).collect();
+        lasts.sort(); lasts.dedup();
+        let set = |v: &[u8]| if v.len() > 16 { format!("{} different values", v.len()) } else { v.iter().map(|b| format!("{:02x}", b)).collect::<Vec<_>>().join(" ") };
+        for case in of.iter().take(3) {
+            let s = image_data_spec(*case);
+            let detail = with_quiet_panics(|| check_image(&s)).err().map(|e| e.1).unwrap_or_else(|| "(passed when run again)".into());
+            let d = format!("[{} of the {} one- and two-byte sample data fail this way; first data byte of the failing ones: {}; last data byte: {}] data bytes {}: {}", of.len(), total, set(&firsts), set(&lasts), hex(&s.data()), detail);
+            rep.fail(obligation, d.clone(), s.to_json(), d);
+        }
+    }
 }
